@@ -8,6 +8,19 @@ ALL = ["C%02d" % i for i in range(1, 20)]
 
 # property -> dict(category, text, design_ref, note, technique)
 CLAIMED = {
+    "C01": dict(category="proof",
+        text="PARTIAL (file-system layer tied by oracle). Lean theorems on the write-ahead-log model: every crash state of every reachable protocol state (any interleaving of logger/installer "
+             "steps under their guards, any loss of un-barriered writes, repeated crashes during recovery) recovers to the specification after a prefix of the logged updates containing every "
+             "durable group commit. Ties: recorded disk traces of real runs mapped onto the model's steps with every guard checked; crash images recovered by the real server and compared "
+             "with the reference state after each prefix of operations (all stable-acknowledged operations included, nothing partial, server keeps serving).",
+        design_ref="DESIGN.md 5/C01", note="trusted: Lean kernel, the hand-written WAL model (go-journal is outside /repo: modelled, tied by the recorded-trace check), recording disk and crash-image harness; crash points and workloads above the journal are sampled",
+        technique="Lean 4 proof (WAL crash-safety by invariant over protocol steps) + recorded-trace validation + crash-image recovery oracle"),
+    "C07": dict(category="proof",
+        text="PARTIAL (verifier freshness and file-system layer tied by oracle). Lean theorems: loss only as a suffix of the append order and never below a durable group commit; a flush makes "
+             "everything before it durable; committed level reported = requested, or FILE_SYNC with the unstable option off, never weaker; written data readable immediately. Ties: crash images "
+             "of write-stability workloads (stability classified by the reply) recovered by the real server; verifier compared across instances; every WRITE/COMMIT/READ reply compared with the model.",
+        design_ref="DESIGN.md 5/C07", note="trusted: Lean kernel, WAL and reference models, recording disk and crash-image harness",
+        technique="Lean 4 proof (WAL suffix-loss, reply decision table) + crash-image recovery oracle + correspondence"),
     "C02": dict(category="proof",
         text="Refinement to a reference file system written in Lean (Model/Fs.lean): theorems that the reference is a plain file system (written bytes are read back, "
              "created names resolve to the returned handle, read-only procedures and restarts are the identity, refused procedures have no effect); the deciding half is the "
